@@ -113,7 +113,7 @@ PLAN = {
                              'what is proved for * / ^ pow sqrt root exp exp2 ln lb log abs and the trigonometric / hyperbolic functions is which num_complex operation is applied to which operands in which order'],
                 unclaimed=['the 1e-12 / 1e-9 closeness of num_complex operations to the textbook definitions',
                            'agreement with eval_f64 on real operands']),
-    'C09': dict(verus=['number-ast', 'number-tok', 'number-glue'], kani=['number-ast', 'number-l4'], level='proof', assumptions=F64_ASSUME + KANI_ASSUME + TOK_ASSUME,
+    'C09': dict(verus=['number-ast', 'number-tok', 'number-glue', 'number-parser'], kani=['number-ast', 'number-l4'], level='proof', assumptions=F64_ASSUME + KANI_ASSUME + TOK_ASSUME,
                 unclaimed=['bit-level meaning of the IEEE primitives (A-ieee in the Verus unit: each is an uninterpreted total function; Kani proves + - * unary minus abs and the rounding functions bit-exact, / and % on a bounded domain)']),
     'C15': dict(verus=['i64-ast', 'f64-ast', 'number-ast', 'i64number-agree', 'f64number-agree'] + PARSERS + GLUES, kani=['i64-ast', 'number-ast', 'f64-ast', 'number-l4'], tables_agree=True, level='proof',
                 assumptions=AST_ASSUME + F64_ASSUME + KANI_ASSUME + PARSER_ASSUME + [
@@ -145,7 +145,7 @@ PLAN = {
                 unclaimed=[]),
 
     'C06': dict(
-        verus=['i64-ast', 'i64-tok', 'i64-glue'], kani=['i64-ast'],
+        verus=['i64-ast', 'i64-tok', 'i64-glue', 'i64-parser'], kani=['i64-ast'],
         level='proof',
         assumptions=[
             'A-std-int: assumed contracts of i64::checked_neg/checked_abs/checked_pow/unsigned_abs/signum/wrapping_rem (vstd has none); vstd contracts of checked_add/sub/mul/div',
